@@ -20,11 +20,15 @@ CONSTANTS
   EShift = 12
   SNum = {3}
   SDen = {1,10}
+  Companies = {"alone", "default", "user"}
   Export = TRUE
 INVARIANT ZOk
 INVARIANT DeliveryInv
 INVARIANT RouteInv
 INVARIANT DefaultSpaceInv
+INVARIANT UserPriorInForceInv
+INVARIANT DefaultOnlyWhenNoneInv
+INVARIANT OwnerInv
 INVARIANT FitsInv
 CONSTRAINT Emit
 CHECK_DEADLOCK FALSE
